@@ -2,6 +2,7 @@
 import copy
 import itertools
 import json
+import os
 
 from props.common import *      # noqa: F401,F403
 from props.common import write_ini, Scratch
@@ -27,13 +28,14 @@ ASSUMPTIONS = ['the [circus] and socket sections are held fixed (changing them i
                'workers obey the stop signal at once (termination behaviour is C02/C03)']
 
 SLOTS = ['a', 'b', 'c']
-INITIAL = {'a': {'np': 1, 'cmd': 0, 'gt': 0, 'envn': 0}, 'b': {'np': 2, 'cmd': 0, 'gt': 0, 'envn': 0}, 'c': None, 'env': 0}
+INITIAL = {'a': {'np': 1, 'cmd': 0, 'gt': 0, 'envn': 0, 'st': 1}, 'b': {'np': 2, 'cmd': 0, 'gt': 0, 'envn': 0, 'st': 0},
+           'c': None, 'env': 0}
 
 
 def edits(compound=False):
     out = [('noop', None)]
     for s in SLOTS:
-        out += [('toggle', s), ('np+', s), ('np-', s), ('cmd', s), ('gt', s), ('envn', s)]
+        out += [('toggle', s), ('np+', s), ('np-', s), ('cmd', s), ('gt', s), ('envn', s), ('st', s)]
     out.append(('env', None))
     if compound:
         # two options of one section changed by the same edit of the file (one reloadconfig for both)
@@ -66,7 +68,7 @@ def apply_edit(cfg, ed):
         return c, set(present), 'env'
     if op == 'toggle':
         if c[s] is None:
-            c[s] = {'np': 1, 'cmd': 0, 'gt': 0, 'envn': 0}
+            c[s] = {'np': 1, 'cmd': 0, 'gt': 0, 'envn': 0, 'st': 0}
             return c, {s}, 'add'
         c[s] = None
         return c, {s}, 'remove'
@@ -92,8 +94,12 @@ def render(path, cfg):
         w = cfg[s]
         if w is None:
             continue
-        ws.append((s, {'cmd': 'sleep %d' % (60 + w['cmd']), 'numprocesses': w['np'],
-                       'graceful_timeout': 0.1 + 0.1 * w['gt']}))
+        opts = {'cmd': 'sleep %d' % (60 + w['cmd']), 'numprocesses': w['np'], 'graceful_timeout': 0.1 + 0.1 * w['gt']}
+        if w.get('st'):
+            # a stream given by class name (the worker's stdout is captured into a file next to the ini file)
+            opts['stdout_stream.class'] = 'FileStream'
+            opts['stdout_stream.filename'] = os.path.join(os.path.dirname(path), s + '.log')
+        ws.append((s, opts))
         if w['envn']:
             envs.append((s, {'SLOT': 'x-' + s}))
     write_ini(path, ws, env={'GLOBAL': 'g'} if cfg['env'] else None, envs=envs)
@@ -153,7 +159,7 @@ def sequences(shard, tier):
 _FRESH = {}
 
 
-def observe(w):
+def observe(w, scratchdir=None):
     out = {}
     rep = w.ask('list')
     names = sorted(rep.get('watchers', [])) if rep and rep.get('status') == 'ok' else repr(rep)
@@ -165,6 +171,8 @@ def observe(w):
             lp = w.ask('list', name=n)
             out[n] = {'options': o.get('options') if o else None, 'status': st.get('status') if st else None,
                       'nprocs': len(lp.get('pids', [])) if lp and lp.get('status') == 'ok' else None}
+    if scratchdir:
+        out = json.loads(json.dumps(out, default=repr).replace(scratchdir, '<SCRATCH>'))
     return out
 
 
@@ -180,7 +188,7 @@ def fresh(cfg):
         w.boot()
         w.run(until=lambda x: x.boot_future.done() and x.slot() is None, horizon=8)
         w.settle(1)
-        obs = observe(w)
+        obs = observe(w, scratch.dir)
     finally:
         w.close()
         scratch.close()
@@ -223,7 +231,7 @@ def run_seq(r, seq, judge_all=False):
                 desc = lambda: 'after edits %s (last: %s %s)' % (json.dumps(seq), kind, ed[1])    # noqa: E731
                 r.check('C12.accepted', rq.ok(), lambda: desc() + ': reloadconfig answered %r' % rq.reply(),
                         'arbiter.reload_from_config', case, fp='refused-' + kind)
-                obs, ref = observe(w), fresh(new)
+                obs, ref = observe(w, scratch.dir), fresh(new)
                 if obs != ref:
                     diff = _diff(obs, ref)
                     site = 'arbiter.reload_from_config'
